@@ -441,7 +441,10 @@ class RTCDtlsTransport(AsyncIOEventEmitter):
             algorithm = f.algorithm.lower()
             if algorithm in X509_DIGEST_ALGORITHMS:
                 fingerprint_supported += 1
-                if f.value.upper() == certificate_digest(certificate, algorithm):
+                # compare as lower case: str.upper() maps some non-ASCII
+                # characters into the hex alphabet (U+FB00 -> "FF")
+                digest = certificate_digest(certificate, algorithm)
+                if f.value.lower() == digest.lower():
                     fingerprint_valid += 1
         if not fingerprint_supported or fingerprint_valid != fingerprint_supported:
             self.__log_debug("x DTLS handshake failed (fingerprint mismatch)")
